@@ -89,6 +89,9 @@ var c09NumTable = map[string]c09Num{
 	// neighbours (added after a seeded change compared all-digit strings by
 	// length first: 008 > 16, and cyclic with 10.5 in between)
 	"008": {0, 8}, "16": {0, 16}, "016": {0, 16}, "010": {0, 10}, "0010": {0, 10}, "11": {0, 11}, "10.5": {0, 10.5}, "9.5": {0, 9.5}, "007": {0, 7}, "00": {0, 0}, "0100": {0, 100}, "99": {0, 99},
+	// signed numbers with a suffix (a benign-round helper noticed that the
+	// unchanged tree read -5K as +5000; repaired in /repo, see NOTES.md)
+	"-5K": {0, -5000}, "-2Ki": {0, -2048}, "-1.5k": {0, -1500}, "-.5K": {0, -500}, "+3M": {0, 3e6}, "-1MB": {0, -1e6},
 	"+Inf": {0, math.Inf(1)}, "Inf": {0, math.Inf(1)}, "-Inf": {0, math.Inf(-1)},
 	"NaN": {c09NaN, 0}, "nan": {c09NaN, 0},
 	"": {c09NonNumber, 0}, "abc": {c09NonNumber, 0}, "x": {c09NonNumber, 0}, "foo": {c09NonNumber, 0}, "zed": {c09NonNumber, 0}, "Q": {c09NonNumber, 0},
